@@ -118,6 +118,8 @@ fn wtlfu_menu(tier: Tier) -> Vec<Cfg> {
         wtlfu(1, 1, 2, 2, SEEDS[3], KHKind::Spread),
         wtlfu(1, 2, 2, 4, SEEDS[0], KHKind::Spread),
         wtlfu(2, 1, 1, 5, SEEDS[2], KHKind::Spread),
+        // every key hashes alike: all estimates are equal, "rejected only if strictly lower" must admit
+        wtlfu(1, 1, 1, 3, SEEDS[0], KHKind::Constant),
     ];
     if tier == Tier::Thorough {
         for (w, pt, pb) in [(1, 2, 2), (2, 2, 1), (2, 1, 2), (2, 2, 2)] {
@@ -131,7 +133,6 @@ fn wtlfu_menu(tier: Tier) -> Vec<Cfg> {
         v.push(keys(wtlfu(2, 2, 2, 3, SEEDS[0], KHKind::Identity), 7));
         v.push(keys(wtlfu(1, 2, 3, 5, SEEDS[3], KHKind::Spread), 7));
         v.push(keys(wtlfu(3, 1, 2, 4, SEEDS[2], KHKind::Identity), 7));
-        v.push(wtlfu(1, 1, 1, 3, SEEDS[0], KHKind::Constant));
         v.push(wtlfu(1, 2, 1, 7, SEEDS[3], KHKind::Identity));
     }
     v
@@ -406,6 +407,19 @@ pub fn plan(prop: &str, tier: Tier) -> Vec<RunSpec> {
                     out.push(s);
                 }
             }
+            // iterators driven from both ends (every word of next / next_back up to len+2) and the conversions,
+            // including sources whose size hint is not exact, are public operations too
+            for mut c in [raw(2, 1, 1), raw(3, 1, 1), twoq(2, 0.5, 1.0, 1), arc(2, 1)] {
+                c.with_clone = false;
+                c.conversions = c.kind == Kind::Raw;
+                c.lean_ops = c.kind != Kind::Raw;
+                if c.kind == Kind::Raw {
+                    c.resize = vec![1];
+                }
+                let mut w = obs_want();
+                w.iters = true;
+                out.push(spec(c, w));
+            }
         }
         "C06" => {
             for c in policy_menu(Kind::Raw, tier) {
@@ -510,10 +524,12 @@ pub fn plan(prop: &str, tier: Tier) -> Vec<RunSpec> {
                     menu.extend(policy_menu(k, Tier::Quick));
                 }
                 for c in menu {
-                    for h in hashers {
+                    for (hi, h) in hashers.iter().enumerate() {
                         let mut c = c.clone();
                         c.hasher = *h;
                         c.key_ty = KeyTy::Tracked;
+                        // conversions build caches too (under the first hasher; the converted cache uses the default one)
+                        c.conversions = k == Kind::Raw && c.callback == 0 && hi == 0;
                         let mut w = obs_want();
                         w.track_alloc = true;
                         w.clone_check = false;
@@ -533,7 +549,9 @@ pub fn plan(prop: &str, tier: Tier) -> Vec<RunSpec> {
                     _ => vec![arc(1, 1), arc(2, 1), arc(3, 1), arc(2, 2), keys(arc(4, 1), 6)],
                 };
                 for mut c in menu {
-                    c.with_clone = false;
+                    // states built by clone / clone_from / the conversions are reachable states as well
+                    c.with_clone = k == Kind::Raw;
+                    c.conversions = k == Kind::Raw;
                     // the plain LRU keeps its full operation set: get_lru(_mut), *_or_put, resize relink the
                     // list in their own ways, and a mis-linked list shows first in the back-to-front iterators
                     c.lean_ops = k != Kind::Raw;
@@ -603,6 +621,23 @@ pub fn plan(prop: &str, tier: Tier) -> Vec<RunSpec> {
                     }
                 }
             }
+            // clones of big caches (bulk paths, index pre-sizing): pre-filled roots, shallow depth
+            for k in [Kind::Raw, Kind::Slru, Kind::Wtlfu] {
+                for (mut c, _) in large_menu(k, tier) {
+                    c.key_ty = KeyTy::Tracked;
+                    let mut w = obs_want();
+                    w.clone_check = true;
+                    let mut plain = c.clone();
+                    plain.relative = false;
+                    plain.keys = plain.keys.min(c.caps.iter().sum::<usize>() as u8 + 2);
+                    let mut ops = mutators(&plain);
+                    ops.extend(observers(&plain));
+                    w.clone_ops = ops;
+                    let mut sp = spec(c, w);
+                    sp.max_depth = if tier == Tier::Thorough { 3 } else { 2 };
+                    out.push(sp);
+                }
+            }
         }
         "C17" => {
             {
@@ -628,6 +663,16 @@ pub fn plan(prop: &str, tier: Tier) -> Vec<RunSpec> {
                         m
                     }
                 };
+                if k == Kind::Wtlfu {
+                    // "the same holds for WTinyLFUCache's structure given the same estimator verdicts": without
+                    // get/get_mut nothing is ever recorded, all estimates are 0 under every KeyHasher
+                    for mut c in [wtlfu(1, 1, 1, 3, SEEDS[0], KHKind::Spread), wtlfu(1, 2, 1, 3, SEEDS[2], KHKind::Identity), wtlfu(2, 1, 2, 4, SEEDS[1], KHKind::Spread)] {
+                        c.no_estimator_ops = true;
+                        let mut s = spec(c, obs_want());
+                        s.hashers = vec![HKind::Zero];
+                        out.push(s);
+                    }
+                }
                 for (i, c) in menu.into_iter().enumerate() {
                     let mut s = spec(c, obs_want());
                     s.hashers = vec![HKind::SipB, HKind::Identity, HKind::Zero, HKind::Fnv, HKind::Random, HKind::Random];
